@@ -199,6 +199,18 @@ def check_case(case):
                 T = n - K
         t = T - n if run.get('negative') else T
         opts = dict(run.get('opts') or {})
+        if run.get('recheck') is not None and len(Py.ENDOGENOUS) >= 1:
+            # solve once, then edit the public `check` list of both twins and solve again (the measured call)
+            R.quiet_call(attempt, p.solve, max_iter=3, failures='ignore', errors='ignore')
+            R.quiet_call(attempt, f.solve, max_iter=3, failures='ignore', errors='ignore')
+            for nm in names:
+                f[nm] = np.asarray(p[nm]).copy()
+            f.status = np.asarray(p.status).copy()
+            f.iterations = np.asarray(p.iterations).copy()
+            endo = list(Py.ENDOGENOUS)
+            new_check = [endo[run['recheck'] % len(endo)]] if run.get('recheck_mode') != 'reversed' else endo[::-1]
+            p.check = list(new_check)
+            f.check = list(new_check)
         if run.get('presolve'):
             # both twins start from an already solved state (re-solving is where a stale comparison baseline shows)
             R.quiet_call(attempt, p.solve, max_iter=200, tol=1e-12, failures='ignore', errors='ignore')
@@ -353,6 +365,7 @@ def runs_strategy():
         'entry': st.sampled_from(['evaluate', 'solve_t', 'solve', 'solve_t']),
         'tpos': st.integers(0, 3), 'negative': st.booleans(), 'extra': st.integers(0, 3), 'opts': opts,
         'presolve': st.sampled_from([False, False, True]), 'infeasible': st.sampled_from([None, None, None, 'front', 'back']),
+        'recheck': st.sampled_from([None, None, None, 0, 1]),
         'bases': st.lists(st.lists(st.sampled_from([1.0, 2.0, 0.5, 4.0, 3.0, 0.25, 1.5]), min_size=2, max_size=4), min_size=1, max_size=3),
     })
     return st.lists(run, min_size=3, max_size=6)
@@ -394,6 +407,12 @@ def fixed_family():
     progs.append(([['assign', V('A'), V('X')], ['assign', V('B'), ['bin', '+', ['bin', '*', ['num', '0.5'], V('B')], V('A')]]],
                   [{'entry': 'solve_t', 'tpos': 0, 'opts': {'tol': 2.0 ** -20, 'max_iter': 60}},
                    {'entry': 'solve', 'opts': {'tol': 2.0 ** -20, 'max_iter': 60}}]))
+    # the check list is edited between two solves: only the fast variable is tested afterwards / only the slow one
+    progs.append(([['assign', V('A'), ['bin', '*', ['num', '0.5'], V('X')]],
+                   ['assign', V('B'), ['bin', '+', ['bin', '*', ['num', '0.5'], V('B')], V('A')]]],
+                  [{'entry': 'solve', 'recheck': 0, 'opts': {'tol': 2.0 ** -20, 'max_iter': 60, 'failures': 'ignore'}},
+                   {'entry': 'solve_t', 'tpos': 1, 'recheck': 1, 'opts': {'tol': 2.0 ** -20, 'max_iter': 60, 'failures': 'ignore'}},
+                   {'entry': 'solve', 'recheck': 1, 'opts': {'tol': 2.0 ** -20, 'max_iter': 5, 'failures': 'ignore'}}]))
     # parameters before exogenous variables in the script (numbering), errors, lags and leads
     progs.append(([['assign', V('Y'), ['bin', '+', ['bin', '*', V('a', None, 'p'), V('X', -1)],
                                        ['bin', '-', V('u', None, 'e'), ['bin', '*', V('b', -1, 'p'), V('W', 1)]]]]],
